@@ -8,6 +8,9 @@
                (owner sets per key, through a verif hook) vs mm_step run to completion per operation
      CCw     : a sequential script of Writes through the real concurrentWriter, some made while the
                file size limit makes every index write fail: index bytes and per-Write error flags
+     CSet    : the per-transaction settings of a transaction taken from the pool after an arbitrary
+               history (sequential and inside the concurrent run), right after NewTransaction and
+               after its ctl rules, vs the settings of the transaction run ALONE (st_alone)
      CAudit  : the bytes of a serial audit log written by concurrent writers must be explained by
                the model under some schedule (au_explain, proved sound) *)
 From Verif Require Import Base Conc.
@@ -20,7 +23,8 @@ Inductive case :=
   | CMemo (errkeys : list nat) (ops : list mm_sop) (res : list (nat * option nat * bool))
           (snap : list (nat * list nat))
   | CAudit (writers : list (list bytes)) (log : bytes)
-  | CCw (writes : list (list bytes * bool)) (index : bytes) (results : list bool).
+  | CCw (writes : list (list bytes * bool)) (index : bytes) (results : list bool)
+  | CSet (waf : list nat) (ctls : list st_act) (at_start after_ctl : list nat).
 
 Definition c6_kv_eqb (a b : bytes * bytes) : bool := bytes_eqb (fst a) (fst b) && bytes_eqb (snd a) (snd b).
 Definition c6_count (x : bytes * bytes) (l : list (bytes * bytes)) : nat := length (filter (c6_kv_eqb x) l).
@@ -77,6 +81,9 @@ Definition ok (c : case) : bool :=
   | CCw writes index results =>
     let '(s, res) := cw_seq writes in
     bytes_eqb (cw_index s) index && c6_list_eqb Bool.eqb res results && negb (cw_locked s)
+  | CSet waf ctls at_start after_ctl =>
+    let '(a, b) := st_alone waf ctls in
+    c6_list_eqb Nat.eqb a at_start && c6_list_eqb Nat.eqb b after_ctl
   end.
 
 Definition mismatches (l : list case) : list nat := mismatches_of ok l.
